@@ -77,14 +77,16 @@ func (d *Ar) Next() (*ArEntry, error) {
 	line := make([]byte, 60)
 
 	count, err := d.in.ReadAt(line, d.offset)
-	if err != nil {
-		return nil, err
-	}
-	if count == 1 && line[0] == '\n' {
-		return nil, io.EOF
-	}
-	if count != 60 {
-		return nil, fmt.Errorf("Caught a short read at the end")
+	if count != len(line) {
+		if err != nil && err != io.EOF {
+			return nil, err
+		}
+		// The archive ends cleanly if nothing (or a lone stray newline)
+		// follows the last member. Anything else is a truncated header.
+		if count == 0 || (count == 1 && line[0] == '\n') {
+			return nil, io.EOF
+		}
+		return nil, fmt.Errorf("Caught a short read at the end: %w", io.ErrUnexpectedEOF)
 	}
 	entry, err := parseArEntry(line)
 	if err != nil {
